@@ -19,7 +19,8 @@ RULE = ('(a) 8 documented + 2 undocumented keys x code{absent,value,callable,fal
         'documented code form vs the environment text must drive the same observable behaviour (timer thread alive and interval numeric, '
         'channel kind, classification, logging config file, auth metadata, service url); (c) 7 paths x include{none,one,two} x '
         'exclude{none,one,two} x app root{none,one}, given as lists, as documented comma strings in code, and as environment text; '
-        'non-trivial = code and environment disagree, or a prefix list has >= 1 entry')
+        'non-trivial = code and environment disagree, or a prefix list has >= 1 entry'
+        ' ; include / exclude text with empty items (trailing and doubled commas) in code and environment')
 ASSUMPTIONS = ['a code value of None is treated as absent (don\'t-care)', 'sys.exec_prefix is always excluded (documented default)',
                'environment variables are read when deep.config is imported: each case re-imports it under the controlled environment']
 
